@@ -41,7 +41,10 @@ MEMBERS = {
     'perm': [['644'], ['0644'], ['7777'], ['000'], ['-644'], ['/222'], ['u+x'], ['-u+x'], ['/u+x'], ['a=r'], ['ug=rw'],
              ['u=rwx,g=rx,o=r'], ["'u+r'"], ['"g+w"'], ['a+rwx'], ['o=x,o=w'], ['u+r,g+r,o+r'], ['-a-x'], ['00644'], ['/o-w']],
     'format': [["'%p\\n'"], ['"%p %s\\n"'], ["'abc'"], ['%p'], ["'%%'"], ["'\\101'"], ["'%A@ %Tk %CY'"], ["'%{fid} %{xattr:user}\\0'"],
-               ["'a\\qb'"], ["'\\\\'"], ["'%u%g\\t%m'"], ["'x'"]],
+               ["'a\\qb'"], ["'\\\\'"], ["'%u%g\\t%m'"], ["'x'"],
+               # every documented escape (octal with leading 0, 1..7, and the extremes) and every documented directive, each in one argument
+               ["'\\a\\b\\f\\n\\r\\t\\v\\0\\\\'"], ["'\\012'"], ["'\\000'"], ["'\\033[1m%f\\033[0m'"], ["'\\101\\777\\0000\\08'"],
+               ["'%%%a%b%c%f%g%G%h%H%i%k%m%n%p%P%s%S%t%u%U%y'"], ["'%{fid}%{projid}%{mirror-count}%{stripe-count}%{stripe-size}%{xattr:a}%A@%Ck%TY'"]],
     'wordword': [['a', 'b'], ["'a b'", 'c'], ['user.x', '"v w"'], ['a*', 'b?']],
     'wordformat': [['out', "'%p\\n'"], ["'o ut'", '"%s"'], ['o', 'lit']],
 }
@@ -388,9 +391,10 @@ def gen_options(tier, rnd):
 
 # ------------------------------------------------------------------ layout (C06)
 
-QUOTABLE = [('-name', ['x', 'foo.txt', 'a b', "it's", 'say"hi', 'x*', 'é']), ('-path', ['./a', 'd/e f']), ('-iname', ['Q']),
+QUOTABLE = [('-name', ['x', 'foo.txt', 'a b', "it's", 'say"hi', 'x*', 'é', 'dir\\', 'a\\b', '\\', 'a\\\\', '.*\\.txt', '$x', '`x`', 'a#b', 'a;b', 'a=b', '~', '-x', '!', '(x']),
+            ('-path', ['./a', 'd/e f', 'C:\\tmp\\']), ('-iname', ['Q']),
             ('-pool', ['p1']), ('-xattr', ['user.a']), ('-fprint', ['out', 'o ut']), ('-perm', ['u+x', '644', '-g=w', '/a+r']),
-            ('-printf', ['%p\\n', 'a b%s', '%%'])]
+            ('-printf', ['%p\\n', 'a b%s', '%%', '%p\\', 'a\\\\'])]
 PLAIN = ['-true', '-false', '-empty', '-uid 5', '-size +1k', '-type f,d', '-print', '-print0', '-quit', '-amin -5', '-links 2']
 
 
@@ -554,11 +558,17 @@ def gen_totality(tier, rnd):
         for c in classes:
             for shape in [c, 'a' + c, c + 'b', 'a' + c + 'b', c + c]:
                 add(site % shape)
+    # many distinct resources: generated-name indices and frame tags beyond one byte / one hex digit pair
+    for k in [15, 16, 17, 126, 127, 128, 129, 200, 254, 255, 256, 257, 300]:
+        add(' '.join('-name n%x' % i for i in range(k)) + ' -print0')
+        add(' '.join('-name n%x' % i for i in range(k)) + ' -print')
+        add(' -o '.join('-fprint f%x' % i for i in range(k)))
+        add(' -o '.join('-fprint0 f%x' % i for i in range(k // 2)) + ' -o ' + ' -o '.join('-iname m%x' % i for i in range(k // 2)) + ' -fprintf z %p')
     for o in range(0o200, 0o240):
         add("-printf '\\%03o'" % o)
         add("-printf 'a\\%03ob'" % o)
     for c in classes + ['"', '\\', '~', '\n']:
         for shape in ['/dev/' + c, c, '/dev/a' + c + 'b']:
             lines.append('C %s %s' % (hx('-name x'), hx(shape)))
-    return lines, {'rule': 'grammar-aware valid corpus (%d inputs), every prefix and random single-character substitutions/insertions/deletions from a hostile alphabet, exhaustive argument strings of length <=%d over a 20-symbol alphabet after each argument-taking keyword, numeric boundaries with every unit, nesting ladders to depth 64, every string site x 16 Unicode classes (C0/DEL/C1 controls, 1..4-byte characters, separators, noncharacters) x 5 positions, octal escapes 0200..0237, hostile device paths; parse + compile + render; debug and release; non-trivial = at least two words'
+    return lines, {'rule': 'grammar-aware valid corpus (%d inputs), every prefix and random single-character substitutions/insertions/deletions from a hostile alphabet, exhaustive argument strings of length <=%d over a 20-symbol alphabet after each argument-taking keyword, numeric boundaries with every unit, nesting ladders to depth 64, every string site x 16 Unicode classes (C0/DEL/C1 controls, 1..4-byte characters, separators, noncharacters) x 5 positions, octal escapes 0200..0237, hostile device paths, 15..300 distinct matchers/destinations in framed and plain mode; parse + compile + render; debug and release; non-trivial = at least two words'
                    % (len(corpus), maxarg), 'streams': {'totality': len(lines)}}
